@@ -20,6 +20,8 @@ CONSTANTS
   FeeOnRemainder = TRUE
   EvictMode = "nodeps"
   ReconcileMature = TRUE
+  NrdEnabled = FALSE
+  NrdHeight = 9
   ShortReorg = FALSE
   MaxBlocks = 2
   MaxSteps = 4
